@@ -16,7 +16,14 @@ uses the request/response vocabulary, the configured tables and the recorded obs
    stored.                                                                             [stored-status] [stored-method]
    The bytes held never exceed MaxBytes,                                               [maxbytes]
    and no interleaving of concurrent requests makes the middleware panic, deadlock     [panic] [deadlock]
-   or corrupt its accounting."                       (accounting: theorems; observable part = maxbytes)
+   or corrupt its accounting."                                                         [accounting]
+
+Accounting, observable part: with an injected storage that never expires anything by itself, what the
+storage holds is exactly what the cache counts. So a request that stores a response evicts other keys
+only if the response does not fit next to them, and a request that stores nothing removes at most its
+own key (expiry, invalidation).  Under storage faults (an injected storage whose calls may fail, the
+outcomes being part of the request): a request whose `Get` of the entry failed or returned a value that
+does not decode, or whose `Get` of the body failed, is not answered from the cache  [hit-failed-get].
 
 Part 2: the state predicates the theorems in Props.lean are stated with.
 -/
@@ -40,9 +47,11 @@ def isNoStoreReq (cc : Bytes) : Bool := (directiveNames cc).contains (b "no-stor
 def specCacheable (status : Nat) : Bool :=
   [200, 203, 204, 206, 300, 301, 308, 404, 405, 410, 414, 501, 418].contains status
 
+abbrev Snap := List (Key × Nat)     -- the `_body` keys an injected storage holds, with the sizes of their values
+
 inductive Obs where
   | panic | deadlock | skipped
-  | resp (o : Out) (ran : Bool) (held : Option Nat)
+  | resp (o : Out) (ran : Bool) (held : Option Nat) (snap : Option Snap)
 deriving Repr, Inhabited
 
 structure OpRec where
@@ -88,8 +97,24 @@ def replays (cfg : Config) (j : OpRec) (o : Out) : Bool :=
 
 def storedBy (j : OpRec) : Bool :=
   match j.obs with
-  | .resp o _ _ => o.xcache == .miss
+  | .resp o _ _ _ => o.xcache == .miss
   | _ => false
+
+def snapSum (s : Snap) : Nat := (s.map (·.2)).sum
+def snapSub (a b : Snap) : Bool := a.all b.contains
+def snapEq (a b : Snap) : Bool := snapSub a b && snapSub b a && a.length == b.length
+
+/-- the accounting clause on the storage contents before and after a sequential request (storage that
+    never expires by itself): `true` = fine -/
+def acctOK (cfg : Config) (before after : Snap) (q : Req) (x : XCache) : Bool :=
+  let k := q.keyMat ++ b "_" ++ q.method
+  let rest := before.filter (·.1 != k)
+  let size := q.resp.body.length
+  match x with
+  | .miss =>
+    if cfg.maxBytes == 0 || snapSum rest + size ≤ cfg.maxBytes then snapEq after ((k, size) :: rest)
+    else after.contains (k, size) && snapSub (after.filter (·.1 != k)) rest
+  | _ => snapSub after before && (before.filter fun p => !after.contains p).all (·.1 == k)
 
 /-- the request reaches the invalidator: it is looked up in the cache at all -/
 def looksUp (cfg : Config) (q : Req) : Bool :=
@@ -101,7 +126,7 @@ def checkOp (cfg : Config) (before : List OpRec) (group : List OpRec) (x : OpRec
   | .panic => some "panic"
   | .deadlock => some "deadlock"
   | .skipped => none
-  | .resp o ran held =>
+  | .resp o ran held _ =>
     let q := x.req
     let configured := cfg.effMethods.contains q.method
     if cfg.maxBytes > 0 && (match held with | some h => h > cfg.maxBytes | none => false) then some "maxbytes"
@@ -113,6 +138,7 @@ def checkOp (cfg : Config) (before : List OpRec) (group : List OpRec) (x : OpRec
       else if isNoCacheReq q.cc then some "hit-nocache"
       else if !configured then some "hit-method"
       else if q.inv then some "hit-invalidated"
+      else if cfg.ext && ((faultAt q.f1 0).noEntry || (faultAt q.f1 1).fails) then some "hit-failed-get"
       else
         -- candidates: the latest earlier sequential store of this key, or any store inside a concurrent
         -- group that is not older than that (order inside a group is not fixed by the history)
@@ -151,16 +177,39 @@ def checkOp (cfg : Config) (before : List OpRec) (group : List OpRec) (x : OpRec
       else if !isOrigin q o then some "pass-not-origin"
       else none
 
-/-- evaluate all clauses over a history (first failing clause) -/
-def specViolation (cfg : Config) (ops : List OpRec) : Option String :=
-  let rec go (before : List OpRec) : List OpRec → Option String
+/-- the storage contents observed right before op `x`: those recorded with the op before it (none yet: empty) -/
+def snapBefore (before : List OpRec) : Option Snap :=
+  match before.getLast? with
+  | none => some []
+  | some p => match p.obs with
+    | .resp _ _ _ s => s
+    | _ => none
+
+def checkAcct (cfg : Config) (before : List OpRec) (x : OpRec) : Option String :=
+  match x.obs with
+  | .resp o _ _ (some after) =>
+    if cfg.ext && !cfg.stTTL && x.grp == 0 then
+      match snapBefore before with
+      | some bs => if acctOK cfg bs after x.req o.xcache then none else some "accounting"
+      | none => none
+    else none
+  | _ => none
+
+/-- evaluate all clauses over a history (first failing clause, with the position of the op it fails on) -/
+def specViolationAt (cfg : Config) (ops : List OpRec) : Option (Nat × String) :=
+  let rec go (before : List OpRec) : List OpRec → Option (Nat × String)
     | [] => none
     | x :: rest =>
       let group := if x.grp == 0 then [] else (before ++ x :: rest).filter fun y => y.grp == x.grp
       match checkOp cfg before group x with
-      | some c => some c
-      | none => go (before ++ [x]) rest
+      | some c => some (x.idx, c)
+      | none =>
+        match checkAcct cfg before x with
+        | some c => some (x.idx, c)
+        | none => go (before ++ [x]) rest
   go [] ops
+
+def specViolation (cfg : Config) (ops : List OpRec) : Option String := (specViolationAt cfg ops).map (·.2)
 
 /-! ### Part 2: state predicates for the theorems -/
 
@@ -176,6 +225,11 @@ structure HInv (h : Heap) : Prop where
   dead_nodup : (h.dead.map (·.idx)).Nodup
   /-- … and distinct from every live one -/
   disjoint : ∀ e ∈ h.live, ∀ d ∈ h.dead, e.idx ≠ d.idx
+
+/-- heap.go's key map mirrors the entries: `keys[k] = idx` exactly when the entry tracked by `idx` is
+    live and belongs to `k` (so a key is tracked by at most one entry) -/
+def KInv (h : Heap) : Prop :=
+  ∀ k idx, klookup h.keys k = some idx ↔ ∃ e, h.find idx = some e ∧ e.key = k
 
 /-- the accounting invariant of cache.go: `storedBytes` is the sum over the heap, within MaxBytes -/
 def Accounted (cfg : Config) (sh : Shared) : Prop :=
